@@ -42,11 +42,27 @@ def raw_streams(rng):
     g = bytes([0xff] + [0] * 8 + [0x7f, 3, 0]) + b"NULL" + bytes(16) + bytes([0]) + bytes(31)
     out = [b"", b"\xff", g[:10], g[:63], bytes([0xfe]) + g[1:], g[:9] + b"\x00" + g[10:], g[:10] + bytes([2, 1]) + g[12:], g[:12] + b"XXXX" + g[16:],
            g[:12] + bytes(20) + g[32:], bytes(64), bytes([0xff]) * 64, g + g, g[:32] + bytes([1]) + g[33:], g[:10] + bytes([255, 255]) + g[12:]]
+    out += [gv + cmd(READY_REQ) for gv in greeting_variants()]
     for _ in range(30):
         out.append(bytes(rng.randrange(256) for _ in range(rng.choice([1, 10, 64, 65, 100]))))
     for t in structured_tails()[:12]:
         out.append(g + cmd(READY_REQ) + t)
     return out
+
+def greeting_variants():
+    """well-formed 64-octet greetings whose 20-octet mechanism field is unusual: full-length names without any padding, names that
+    extend or truncate a known one, high bytes, padding that is not NUL; and other fields at their extremes"""
+    g = bytes([0xff] + [0] * 8 + [0x7f, 3, 0]) + b"NULL" + bytes(16) + bytes([0]) + bytes(31)
+    mechs = [b"X-CUSTOM-MECH.V1+ABC", b"A" * 20, b"ABCDEFGHIJKLMNOPQRS", bytes([0xff]) * 20, b"NULL" + bytes([0xff]) * 16, b"NULLX", b"PLAINTEXT", b"N", bytes([0x80]) + b"ULL",
+             b"NULL" + bytes(15) + b"X", b"CURVE" + b"." * 15, b"0123456789._+-ABCDEF"]
+    out = [g[:12] + (m + bytes(20))[:20] + g[32:] for m in mechs]
+    out += [g[:32] + bytes([0xff]) + g[33:], g[:33] + bytes([0xff]) * 31, g[:1] + bytes([0xff]) * 8 + g[9:], g[:10] + bytes([3, 255]) + g[12:], g[:10] + bytes([255, 0]) + g[12:]]
+    return out
+
+def command_floods():
+    """thousands of consecutive command frames (a peer may send commands at any time): none is an application message"""
+    ready = cmd(READY_REQ)
+    return [ready * 3000, cmd(b"\x04PING\x00\x00") * 4000, (cmd(b"\x09SUBSCRIBE") + ready) * 1500, cmd(b"\x05ERROR\x00") * 3000]
 
 def socket_scripts(rng, thorough):
     tails = structured_tails()
@@ -54,13 +70,15 @@ def socket_scripts(rng, thorough):
     bigs = [bytes([2]) + bytes.fromhex("fffffffffffffff0") + b"x" * 10, bytes([2]) + bytes.fromhex("0000010000000000") + b"x" * 10, bytes([1, 1, 65]) * 6000]
     out, scen = [], 0
     hello = bytes([0xff] + [0] * 8 + [0x7f, 3, 0]) + b"NULL" + bytes(16) + bytes([0]) + bytes(31)
+    gvs = greeting_variants()
+    floods = command_floods()
     for t in S.PEER_OF:
         ptype = S.PEER_OF[t][0]
         ready_ok = cmd(bytes([5]) + b"READY" + bytes([11]) + b"Socket-Type" + struct.pack(">I", len(ptype)) + ptype.encode())
-        for tail in pick + bigs:
-            for stage in ("instead_of_ready", "after_ready"):
+        for tail, stages in [(x, ("instead_of_ready", "after_ready")) for x in pick + bigs] + [(x, ("after_ready",)) for x in floods] + [(x, ("greeting",)) for x in (gvs if thorough else gvs[:4] + rng.sample(gvs[4:], 4))]:
+            for stage in stages:
                 scen += 1
-                segs = [(hello + tail).hex()] if stage == "instead_of_ready" else [(hello + ready_ok).hex(), tail.hex()]
+                segs = [(hello + tail).hex()] if stage == "instead_of_ready" else [(hello + ready_ok).hex(), tail.hex()] if stage == "after_ready" else [(tail + ready_ok).hex()]
                 ops = [{"op": "attach", "c": 1, "ptype": ptype}]
                 msg = dlvlib.msg_for(t, 1, 1)
                 if t in ("PUB", "XPUB"):
@@ -71,7 +89,9 @@ def socket_scripts(rng, thorough):
                 if t in S.RECV_TYPES:
                     ops += [{"op": "psend", "c": 1, "m": msg}, {"op": "recv"}, {"op": "recv"}, {"op": "recv"}, {"op": "quiescent"}, {"op": "recv_drop"}]
                 elif t == "REQ":
-                    pass
+                    # requests go to the peers in turn; whoever got one answers after whatever it has already sent
+                    for i in range(3):
+                        ops += [{"op": "send", "m": [("q%d" % i).encode().hex()]}, {"op": "preply", "m": ["", ("r%d" % i).encode().hex()]}, {"op": "recv"}, {"op": "quiescent"}, {"op": "recv_drop"}]
                 else:
                     m = [b"hello".hex()]
                     ops += [{"op": "send", "m": m}, {"op": "send", "m": m}, {"op": "settle"}, {"op": "expect_wire", "c": 1, "m": m}]
